@@ -32,6 +32,7 @@ pub enum Fallback {
 }
 
 struct ScriptState {
+    fallback: Fallback,
     prefix: Vec<u16>,
     trace: Vec<Choice>,
     rng: SmallRng,
@@ -42,7 +43,6 @@ struct ScriptState {
 /// `Random` implementation whose every answer is a recorded choice point.
 pub struct ScriptedRandom {
     state: Mutex<ScriptState>,
-    fallback: Fallback,
     trace_cap: usize,
 }
 
@@ -54,15 +54,25 @@ impl ScriptedRandom {
         };
         Self {
             state: Mutex::new(ScriptState {
+                fallback,
                 prefix,
                 trace: vec![],
                 rng: SmallRng::seed_from_u64(seed),
                 mismatch: None,
                 expected: None,
             }),
-            fallback,
             trace_cap: 100_000,
         }
+    }
+
+    /// Starts a new execution on the same object (contexts keep an `Arc` of their random source).
+    pub fn reset(&self, prefix: Vec<u16>, fallback: Fallback) {
+        let seed = match fallback {
+            Fallback::Stream(s) => s,
+            Fallback::Default => 0,
+        };
+        let mut st = self.state.lock().unwrap();
+        *st = ScriptState { fallback, prefix, trace: vec![], rng: SmallRng::seed_from_u64(seed), mismatch: None, expected: None };
     }
 
     /// When replaying a recorded prefix, kinds and menu sizes must match the recording.
@@ -103,7 +113,7 @@ impl ScriptedRandom {
                 Some(c)
             }
         } else {
-            match self.fallback {
+            match st.fallback {
                 Fallback::Default => Some(0),
                 Fallback::Stream(_) => None,
             }
